@@ -18,21 +18,21 @@ theorem follow_cons {cfg : LexCfg} {t : CTok} {c : Char} {r : List Char}
 
 /-! ### one-character tokens and comparisons -/
 
-theorem nextToken_punct (cfg : LexCfg) (h : CfgOK cfg) (c : Char) (tk : CTok) (rest : List Char)
+theorem nextToken_punct (cfg : LexCfg) (h : CfgBase cfg) (c : Char) (tk : CTok) (rest : List Char)
     (hp : punctTok c = some tk) (hs : isAsciiSpecial c = true) :
     nextToken cfg (c :: rest) = some (tk, rest) := by
   unfold nextToken
   rw [dropWhile_head (h.white_special c hs)]
   simp only [hp]
 
-theorem nextToken_comma (cfg : LexCfg) (h : CfgOK cfg) (rest : List Char) (hd : cfg.decimal ≠ ',') :
+theorem nextToken_comma (cfg : LexCfg) (h : CfgBase cfg) (rest : List Char) (hd : cfg.decimal ≠ ',') :
     nextToken cfg (',' :: rest) = some (.comma, rest) := by
   unfold nextToken
   rw [dropWhile_head (h.white_special ',' (by decide))]
   have hp : punctTok ',' = none := by decide
   simp [hp, hd]
 
-theorem nextToken_lt (cfg : LexCfg) (h : CfgOK cfg) (rest : List Char)
+theorem nextToken_lt (cfg : LexCfg) (h : CfgBase cfg) (rest : List Char)
     (hf : follow cfg (.cmp .lt) rest = true) :
     nextToken cfg ('<' :: rest) = some (.cmp .lt, rest) := by
   unfold nextToken
@@ -45,7 +45,7 @@ theorem nextToken_lt (cfg : LexCfg) (h : CfgOK cfg) (rest : List Char)
     simp [follow, badNext] at hf
     simp [headIs, hf]
 
-theorem nextToken_gt (cfg : LexCfg) (h : CfgOK cfg) (rest : List Char)
+theorem nextToken_gt (cfg : LexCfg) (h : CfgBase cfg) (rest : List Char)
     (hf : follow cfg (.cmp .gt) rest = true) :
     nextToken cfg ('>' :: rest) = some (.cmp .gt, rest) := by
   unfold nextToken
@@ -58,21 +58,21 @@ theorem nextToken_gt (cfg : LexCfg) (h : CfgOK cfg) (rest : List Char)
     simp [follow, badNext] at hf
     simp [headIs, hf]
 
-theorem nextToken_le (cfg : LexCfg) (h : CfgOK cfg) (rest : List Char) :
+theorem nextToken_le (cfg : LexCfg) (h : CfgBase cfg) (rest : List Char) :
     nextToken cfg ('<' :: '=' :: rest) = some (.cmp .le, rest) := by
   unfold nextToken
   rw [dropWhile_head (h.white_special '<' (by decide))]
   have hp : punctTok '<' = none := by decide
   simp [hp, headIs]
 
-theorem nextToken_ne (cfg : LexCfg) (h : CfgOK cfg) (rest : List Char) :
+theorem nextToken_ne (cfg : LexCfg) (h : CfgBase cfg) (rest : List Char) :
     nextToken cfg ('<' :: '>' :: rest) = some (.cmp .ne, rest) := by
   unfold nextToken
   rw [dropWhile_head (h.white_special '<' (by decide))]
   have hp : punctTok '<' = none := by decide
   simp [hp, headIs]
 
-theorem nextToken_ge (cfg : LexCfg) (h : CfgOK cfg) (rest : List Char) :
+theorem nextToken_ge (cfg : LexCfg) (h : CfgBase cfg) (rest : List Char) :
     nextToken cfg ('>' :: '=' :: rest) = some (.cmp .ge, rest) := by
   unfold nextToken
   rw [dropWhile_head (h.white_special '>' (by decide))]
@@ -121,7 +121,7 @@ theorem consumeString_ok (s rest : List Char) (hs : strOK s = true)
     consumeString (s ++ '"' :: rest) = some (s, rest) :=
   consumeString_aux rest hr s.length s (Nat.le_refl _) hs
 
-theorem nextToken_str (cfg : LexCfg) (h : CfgOK cfg) (s rest : List Char) (hs : strOK s = true)
+theorem nextToken_str (cfg : LexCfg) (h : CfgBase cfg) (s rest : List Char) (hs : strOK s = true)
     (hf : follow cfg (.str s) rest = true) :
     nextToken cfg ('"' :: (s ++ '"' :: rest)) = some (.str s, rest) := by
   unfold nextToken
@@ -232,7 +232,7 @@ theorem errName_shape (errors : List (List Char × Nat)) (hok : errTableOK error
         exact ⟨d, m, by rw [hs]⟩
     · exact ih htl hmem
 
-theorem nextToken_err (cfg : LexCfg) (h : CfgOK cfg) (e : Nat) (rest : List Char)
+theorem nextToken_err (cfg : LexCfg) (h : CfgBase cfg) (e : Nat) (rest : List Char)
     (hok : cfg.errors.any (fun p => p.2 = e) = true) :
     nextToken cfg (errText cfg.errors e ++ rest) = some (.err e, rest) := by
   obtain ⟨p, hp, hpe, htxt⟩ := errText_mem cfg.errors e hok
@@ -246,7 +246,7 @@ theorem nextToken_err (cfg : LexCfg) (h : CfgOK cfg) (e : Nat) (rest : List Char
   have hpt : punctTok '#' = none := by decide
   simp [hpt, hhit, hpe]
 
-theorem nextToken_spill (cfg : LexCfg) (h : CfgOK cfg) (rest : List Char)
+theorem nextToken_spill (cfg : LexCfg) (h : CfgBase cfg) (rest : List Char)
     (hf : follow cfg .spill rest = true) :
     nextToken cfg ('#' :: rest) = some (.spill, rest) := by
   have hr : stops (errSecond cfg.errors) rest = true := by
@@ -279,7 +279,7 @@ theorem nextToken_other (cfg : LexCfg) (c : Char) (t : List Char) (hw : cfg.cc.w
   rw [dropWhile_head hw]
   simp only [hp, h1, h2, h3, h4, h5, h6, h7, h8, if_false]
 
-theorem alnum_notSpecial (cfg : LexCfg) (h : CfgOK cfg) (c : Char) (ha : cfg.cc.alnum c = true) :
+theorem alnum_notSpecial (cfg : LexCfg) (h : CfgBase cfg) (c : Char) (ha : cfg.cc.alnum c = true) :
     isAsciiSpecial c = false := by
   cases hs : isAsciiSpecial c with
   | false => rfl
@@ -293,7 +293,7 @@ theorem headIs_false_of_ne (rest : List Char) (c : Char)
   | nil => rfl
   | cons d r => simpa [headIs] using h d r rfl
 
-theorem identStart_dispatch (cfg : LexCfg) (h : CfgOK cfg) (c : Char)
+theorem identStart_dispatch (cfg : LexCfg) (h : CfgBase cfg) (c : Char)
     (hc : isIdentStart cfg.cc c = true) :
     cfg.cc.white c = false ∧ isAsciiSpecial c = false ∧ isDigit c = false := by
   simp only [isIdentStart, Bool.or_eq_true, decide_eq_true_eq] at hc
@@ -306,18 +306,18 @@ theorem identStart_dispatch (cfg : LexCfg) (h : CfgOK cfg) (c : Char)
   · subst hu
     exact ⟨h.white_us, by decide, by decide⟩
 
-theorem nextToken_identStart (cfg : LexCfg) (h : CfgOK cfg) (c : Char) (t : List Char)
+theorem nextToken_identStart (cfg : LexCfg) (h : CfgBase cfg) (c : Char) (t : List Char)
     (hc : isIdentStart cfg.cc c = true) :
     nextToken cfg (c :: t) = some (identBranch cfg (c :: t)) := by
   obtain ⟨hw, hs, hd⟩ := identStart_dispatch cfg h c hc
   rw [nextToken_other cfg c t hw hs]
   simp [hd, hc]
 
-theorem alpha_identChar (cfg : LexCfg) (h : CfgOK cfg) (c : Char) (ha : cfg.cc.alpha c = true) :
+theorem alpha_identChar (cfg : LexCfg) (h : CfgBase cfg) (c : Char) (ha : cfg.cc.alpha c = true) :
     isIdentChar cfg.cc c = true := by
   simp [isIdentChar, h.alpha_alnum c ha]
 
-theorem boolName_facts (cfg : LexCfg) (h : CfgOK cfg) (n : List Char)
+theorem boolName_facts (cfg : LexCfg) (h : CfgBase cfg) (n : List Char)
     (hn : n ≠ [] ∧ n.all (fun c => cfg.cc.alpha c && !isDigit c) = true) :
     n.all (isIdentChar cfg.cc) = true ∧ ∃ c tl, n = c :: tl ∧ isIdentStart cfg.cc c = true := by
   obtain ⟨hne, hall⟩ := hn
@@ -346,7 +346,7 @@ theorem follow_bool_facts (cfg : LexCfg) (b : Bool) (rest : List Char)
     obtain ⟨⟨h1, h2⟩, h3⟩ := hb
     refine ⟨by simp [stops, h1], by simp [headIs, h2], by simp [headIs, h3]⟩
 
-theorem nextToken_bool (cfg : LexCfg) (h : CfgOK cfg) (b : Bool) (rest : List Char)
+theorem nextToken_bool (cfg : LexCfg) (h : CfgBase cfg) (b : Bool) (rest : List Char)
     (hf : follow cfg (.bool b) rest = true) :
     nextToken cfg ((if b then cfg.trueName else cfg.falseName) ++ rest) = some (.bool b, rest) := by
   obtain ⟨hstop, hbang, hdollar⟩ := follow_bool_facts cfg b rest hf
@@ -379,7 +379,7 @@ theorem nextToken_bool (cfg : LexCfg) (h : CfgOK cfg) (b : Bool) (rest : List Ch
 theorem nextToken_ident (cfg : LexCfg) (h : CfgOK cfg) (s rest : List Char)
     (hs : identOK cfg s = true) (hf : follow cfg (.ident s) rest = true) :
     nextToken cfg (s ++ rest) = some (.ident s, rest) := by
-  simp only [identOK, Bool.and_eq_true, bne_iff_ne, ne_eq, Option.isNone_iff_eq_none] at hs
+  simp only [identOK, h.a1, if_true, Bool.and_eq_true, bne_iff_ne, ne_eq, Option.isNone_iff_eq_none] at hs
   obtain ⟨⟨⟨⟨⟨hstart, hall⟩, hnt⟩, hnf⟩, hpr⟩, hvalid⟩ := hs
   have hfacts : stops (isIdentChar cfg.cc) rest = true ∧ headIs rest '!' = false ∧
       headIs rest '$' = false ∧ headIs rest '[' = false ∧
@@ -388,7 +388,7 @@ theorem nextToken_ident (cfg : LexCfg) (h : CfgOK cfg) (s rest : List Char)
     | nil => simp [stops, headIs]
     | cons d r =>
       have hb := follow_cons hf
-      simp only [badNext, Bool.or_eq_false_iff, decide_eq_false_iff_not, Bool.and_eq_false_iff] at hb
+      simp only [badNext, h.a1, Bool.true_and, Bool.or_eq_false_iff, decide_eq_false_iff_not, Bool.and_eq_false_iff] at hb
       obtain ⟨⟨⟨⟨h1, h2⟩, h3⟩, h4⟩, h5⟩ := hb
       refine ⟨by simp [stops, h1], by simp [headIs, h2], by simp [headIs, h3], by simp [headIs, h4], ?_⟩
       rcases h5 with h5 | h5
@@ -589,8 +589,8 @@ theorem nextToken_num (cfg : LexCfg) (h : CfgOK cfg) (d rest : List Char) (hd : 
       | nil => exact ⟨rfl, rfl⟩
       | cons a r =>
         have hb := follow_cons hf
-        simp only [badNext, Bool.or_eq_false_iff, decide_eq_false_iff_not] at hb
-        obtain ⟨⟨⟨⟨⟨h1, h2⟩, h3⟩, h4⟩, h5⟩, h6⟩ := hb
+        simp only [badNext, h.a1, Bool.true_and, Bool.or_eq_false_iff, decide_eq_false_iff_not] at hb
+        obtain ⟨⟨⟨⟨h1, h2⟩, h3⟩, h4⟩, h5, h6⟩ := hb
         refine ⟨by simp [numStop, stops, h1, h2, h3, h4], ?_⟩
         rw [dropWhile_head h6]
         simp [headIs, h5]
@@ -638,10 +638,10 @@ theorem consumeRange_cell (cc : CharClass) (sh : Option (List Char)) (r : PRef) 
   rw [consumeRangeA1_cell 0 0 r rest (refOK_inGrid r hr) hrest]
   simp [tokOfRange, tokenOf_zero]
 
-theorem dollar_not_identChar (cfg : LexCfg) (h : CfgOK cfg) : isIdentChar cfg.cc '$' = false := by
+theorem dollar_not_identChar (cfg : LexCfg) (h : CfgBase cfg) : isIdentChar cfg.cc '$' = false := by
   simp [isIdentChar, h.special_not_alnum '$' (by decide)]
 
-theorem bang_not_identChar (cfg : LexCfg) (h : CfgOK cfg) : isIdentChar cfg.cc '!' = false := by
+theorem bang_not_identChar (cfg : LexCfg) (h : CfgBase cfg) : isIdentChar cfg.cc '!' = false := by
   simp [isIdentChar, h.special_not_alnum '!' (by decide)]
 
 theorem nextToken_dollar (cfg : LexCfg) (h : CfgOK cfg) (t : List Char) :
@@ -693,7 +693,7 @@ theorem nextToken_ref_local (cfg : LexCfg) (h : CfgOK cfg) (r : PRef) (X : List 
       simp only [k2, k3, h.a1]
       simp [headIs]
 
-theorem nextToken_quote (cfg : LexCfg) (h : CfgOK cfg) (t : List Char) :
+theorem nextToken_quote (cfg : LexCfg) (h : CfgBase cfg) (t : List Char) :
     nextToken cfg ('\'' :: t) = some (ofRefTok (quotedPath cfg.cc cfg.a1 t)) := by
   unfold nextToken
   rw [dropWhile_head (h.white_special '\'' (by decide))]
@@ -702,10 +702,10 @@ theorem nextToken_quote (cfg : LexCfg) (h : CfgOK cfg) (t : List Char) :
 
 /-- a text starting with a sheet prefix, quoted or not as `quote_name` decides: next_token is what
     consume_range reads after the `!` -/
-theorem nextToken_ref_sheet (cfg : LexCfg) (h : CfgOK cfg) (n : List Char) (hn : n ≠ [])
+theorem nextToken_sheetPrefix (cfg : LexCfg) (h : CfgBase cfg) (n : List Char) (hn : n ≠ [])
     (X : List Char) :
     nextToken cfg ((quoteName cfg.cc n ++ ['!']) ++ X)
-      = some (ofRefTok (consumeRange cfg.cc true (some n) X)) := by
+      = some (ofRefTok (consumeRange cfg.cc cfg.a1 (some n) X)) := by
   unfold quoteName quoteWith
   cases hq : nameNeedsQuoting cfg.cc n with
   | true =>
@@ -713,7 +713,7 @@ theorem nextToken_ref_sheet (cfg : LexCfg) (h : CfgOK cfg) (n : List Char) (hn :
     rw [nextToken_quote cfg h]
     unfold quotedPath
     rw [consumeSingleQuoteString_escape n ('!' :: X) (by simp [stops])]
-    simp only [dropWhile_head (h.white_special '!' (by decide)), if_true, h.a1]
+    simp only [dropWhile_head (h.white_special '!' (by decide)), if_true]
   | false =>
     simp only [Bool.false_eq_true, if_false, List.append_assoc, List.cons_append, List.nil_append]
     have hlook : looksLikeIdent cfg.cc n = true := by
@@ -737,8 +737,14 @@ theorem nextToken_ref_sheet (cfg : LexCfg) (h : CfgOK cfg) (n : List Char) (hn :
       have k3 := dropWhile_app _ (c :: tl) _ hall hstop
       rw [List.cons_append, nextToken_identStart cfg h c _ hcs, ← List.cons_append]
       unfold identBranch
-      simp only [k2, k3, h.a1]
+      simp only [k2, k3]
       simp [headIs]
+
+theorem nextToken_ref_sheet (cfg : LexCfg) (h : CfgOK cfg) (n : List Char) (hn : n ≠ [])
+    (X : List Char) :
+    nextToken cfg ((quoteName cfg.cc n ++ ['!']) ++ X)
+      = some (ofRefTok (consumeRange cfg.cc true (some n) X)) := by
+  rw [nextToken_sheetPrefix cfg h n hn X, h.a1]
 
 /-! ### the plain form `A1` (identifier branch, parse_reference_a1) -/
 
@@ -791,7 +797,7 @@ theorem parseReferenceA1_cell (c r : Nat) (hc1 : 1 ≤ c) (hc2 : c ≤ 16384) (h
     parseI32_natToDec r (by omega), hcn, hvr]
   simp
 
-theorem upperStr_fixed (cfg : LexCfg) (h : CfgOK cfg) (s : List Char)
+theorem upperStr_fixed (cfg : LexCfg) (h : CfgBase cfg) (s : List Char)
     (hs : ∀ c, c ∈ s → isUpper c = true ∨ isDigit c = true) : upperStr cfg s = s := by
   unfold upperStr
   induction s with
@@ -1093,7 +1099,7 @@ theorem nextToken_ref (cfg : LexCfg) (h : CfgOK cfg) (sh : Option (List Char)) (
     (rest : List Char) (hok : tokOK cfg (.ref sh r) = true)
     (hf : follow cfg (.ref sh r) rest = true) :
     nextToken cfg (renderTok cfg (.ref sh r) ++ rest) = some (.ref sh r, rest) := by
-  simp only [tokOK, Bool.and_eq_true] at hok
+  simp only [tokOK, h.a1, if_true, Bool.and_eq_true] at hok
   obtain ⟨hsh, hr⟩ := hok
   simp only [renderTok, h.a1, if_true]
   rw [printA1_pre _ 0 0 r (refOK_inGrid r hr), List.append_assoc]
@@ -1104,14 +1110,14 @@ theorem nextToken_ref (cfg : LexCfg) (h : CfgOK cfg) (sh : Option (List Char)) (
     | cons d t =>
       have hb := follow_cons hf
       by_cases hp : (sh.isNone && !r.absCol && !r.absRow) = true
-      · simp only [badNext, hp, if_true, Bool.or_eq_false_iff, decide_eq_false_iff_not] at hb
+      · simp only [badNext, h.a1, Bool.not_true, Bool.false_eq_true, if_false, hp, if_true, Bool.or_eq_false_iff, decide_eq_false_iff_not] at hb
         obtain ⟨⟨⟨⟨h1, h2⟩, h3⟩, h4⟩, h5⟩ := hb
         have hdd : isDigit d = false := by
           cases hx : isDigit d with
           | false => rfl
           | true => simp [isIdentChar, h.digit_alnum d hx] at h1
         exact ⟨by simp [stops, hdd, h5], fun _ => by simp [plainStop, stops, h1, h2, h3, h4]⟩
-      · simp only [badNext, hp, Bool.false_eq_true, if_false, Bool.or_eq_false_iff,
+      · simp only [badNext, h.a1, Bool.not_true, hp, Bool.false_eq_true, if_false, Bool.or_eq_false_iff,
           decide_eq_false_iff_not] at hb
         exact ⟨by simp [stops, hb.1, hb.2], fun hc => absurd hc hp⟩
   have hcell := consumeRangeA1_cell 0 0 r rest (refOK_inGrid r hr) hrest.1
@@ -1123,8 +1129,8 @@ theorem nextToken_range (cfg : LexCfg) (h : CfgOK cfg) (sh : Option (List Char))
     (rest : List Char) (hok : tokOK cfg (.range sh l r) = true)
     (hf : follow cfg (.range sh l r) rest = true) :
     nextToken cfg (renderTok cfg (.range sh l r) ++ rest) = some (.range sh l r, rest) := by
-  simp only [tokOK, Bool.and_eq_true] at hok
-  obtain ⟨⟨hsh, hl⟩, hr⟩ := hok
+  simp only [tokOK, h.a1, if_true, Bool.and_eq_true] at hok
+  obtain ⟨hsh, hl, hr⟩ := hok
   simp only [renderTok, h.a1, if_true]
   by_cases hopen : (fullRowOf l r || fullColOf l r) = true
   · have hrest : stops isAlphaOrDigit rest = true := by
@@ -1132,7 +1138,7 @@ theorem nextToken_range (cfg : LexCfg) (h : CfgOK cfg) (sh : Option (List Char))
       | nil => rfl
       | cons d t =>
         have hb := follow_cons hf
-        simp only [badNext, hopen, if_true] at hb
+        simp only [badNext, h.a1, Bool.not_true, Bool.false_eq_true, if_false, hopen, if_true] at hb
         simp [stops, hb]
     exact nextToken_range_open cfg h sh l r rest hsh hl hr hopen hrest
   · have hfr : fullRowOf l r = false := by
@@ -1147,7 +1153,7 @@ theorem nextToken_range (cfg : LexCfg) (h : CfgOK cfg) (sh : Option (List Char))
       | nil => rfl
       | cons d t =>
         have hb := follow_cons hf
-        simp only [badNext, hopen, Bool.false_eq_true, if_false] at hb
+        simp only [badNext, h.a1, Bool.not_true, hopen, Bool.false_eq_true, if_false] at hb
         simp [stops, hb]
     have hcell := consumeRangeA1_cells 0 0 l r rest (refOK_inGrid l hl) (refOK_inGrid r hr) hrest
     have hX : plainStop cfg (':' :: (printA1 [] 0 0 r false false ++ rest)) = true := by
